@@ -9,7 +9,7 @@ PARTIAL = []
 ASSUMPTIONS = ['theorem is stated for an arbitrary hash function H; the run uses coq/Common/Hash.v sha256d (validated against hashlib by this run)',
                'script code is a byte string (CScript is a bytes subclass); its length prefix is the CompactSize of its length']
 RULE = ('C01 transactions with nLockTime/nSequence in {0,2^31-1,2^31,2^32-1,random}, amounts {0,1,2^63-1,random}, script codes of '
-        'length {0,1,252,253,300,random}, all 256 hash types (every type at least once per run; SINGLE with and without a '
+        'length {0,1,252,253,300,random} and of the shapes callers pass (P2WPKH / P2WSH programs themselves, implied P2PKH, P2SH, P2PK, multisig, with CODESEPARATORs, near-misses), every fourth transaction followed by a second spend of the same outpoints with other sequences / outputs / lock time, all 256 hash types (every type at least once per run; SINGLE with and without a '
         'matching output), every valid input index plus a few invalid ones (unconstrained)')
 IN_COQ_SAMPLE = 10
 
@@ -21,6 +21,29 @@ def corpus():
 def classify(e, a, iv):
     ht = a[3]
     return 'base%d%s' % (ht & 0x1f if (ht & 0x1f) in (1, 2, 3) else 0, '+acp' if ht & 0x80 else '')
+
+
+def shaped_script(rng):
+    """script codes with the shapes callers actually pass (the digest commits to exactly these bytes)"""
+    h20, h32 = rbytes(rng, 20), rbytes(rng, 32)
+    r = rng.randrange(9)
+    if r == 0:
+        return b'\x00\x14' + h20                                  # P2WPKH program itself
+    if r == 1:
+        return b'\x00\x20' + h32                                  # P2WSH program itself
+    if r == 2:
+        return b'\x76\xa9\x14' + h20 + b'\x88\xac'                # the implied P2PKH script code
+    if r == 3:
+        return b'\xa9\x14' + h20 + b'\x87'                         # P2SH
+    if r == 4:
+        return bytes([0x50 + rng.randrange(1, 17), 0x20]) + h32     # witness v1..16
+    if r == 5:
+        return b'\x21' + rbytes(rng, 33) + b'\xac'                  # P2PK
+    if r == 6:
+        return b'\x51\xab\x52\xab' + rbytes(rng, 3)                # CODESEPARATORs stay (no FindAndDelete in BIP143)
+    if r == 7:
+        return b'\x00\x14' + rbytes(rng, rng.choice([19, 21]))     # near-miss of the keyhash shape
+    return b'\x52' + (b'\x21' + rbytes(rng, 33)) * 2 + b'\x52\xae'  # 2-of-2
 
 
 def generate(rng, tier, boost):
@@ -38,7 +61,15 @@ def generate(rng, tier, boost):
         ht = hts[k % 256] if k < 256 or rng.random() < 0.3 else rng.choice([1, 2, 3, 0x81, 0x82, 0x83, 0, 4])
         amount = rng.choice([0, 1, (1 << 63) - 1, rng.getrandbits(63), rng.getrandbits(40)])
         script = rbytes(rng, rng.choice([0, 1, 25, 252, 253, 300, rng.randrange(0, 80)] + ([70000] if big and k % 200 == 0 else [])))
+        if k % 3 == 0:
+            script = shaped_script(rng)
         cases.append((401, [script, t, idx, ht, amount]))
+        if k % 4 == 0:
+            # the same outpoints spent again with other sequences / outputs / lock time (fee bump):
+            # nothing may be carried over from the previous digest computation
+            t2 = [t[0], [[i[0], i[1], i[2], rng.choice([0, 0xfffffffd, rng.getrandbits(32)])] for i in t[1]],
+                  W.rand_tx(rng, nin=1, nout=rng.choice([1, 2, 3]))[2], t[3], rng.getrandbits(32)]
+            cases.append((401, [script, t2, idx, ht, amount]))
     # SINGLE at the output boundary, every index
     for nout in (0, 1, 2):
         t = W.rand_tx(rng, nin=3, nout=nout)
